@@ -556,6 +556,13 @@ func runC07(cfg hx.Config) error {
 		if rng.Chance(50) {
 			r.convert(lv, g.randomOpt())
 		}
+		if lv.dup || len(lv.kids) > 0 {
+			// instances met twice (inside this schema, or here and in an earlier run of their own) are what
+			// reused:"ref" turns into $defs / $ref
+			o := defaultOpt
+			o.Reused = "ref"
+			r.convert(lv, o)
+		}
 		for len(lv.convs) < 3 {
 			r.convert(lv, defaultOpt)
 		}
